@@ -98,6 +98,10 @@ type Sim struct {
 	inbound  []inboundPkt // packets B→A that were really sent (commitment on B)
 	realSubj *Subject
 	bHalted  bool
+	pathBroken bool
+	inits    []inboundInit
+	outbound []outPkt
+	acks     []ackItem
 	// B height -> app hash of B's real header at that height (known to be provable against)
 	realRoots    map[uint64][]byte
 	upgradedReal bool
@@ -182,8 +186,8 @@ func NewSim(c *kit.Check, r *kit.Rng, pr Profile) *Sim {
 	cfg.TrustingPeriod = time.Duration(40+r.Intn(120)) * time.Minute
 	cfg.UnbondingPeriod = cfg.TrustingPeriod * 3
 	cfg.TrustLevel = kit.Pick(r, trustLevels[:3])
-	p.Setup()
 	s.P = p
+	p.SetupClients()
 	bv := &VChain{Name: "testchain2", Rev: 1, Real: true}
 	bv.Sign = func(addr, msg []byte) ([]byte, bool) {
 		pv, ok := s.B.Signers[cmtAddr(addr)]
@@ -198,11 +202,21 @@ func NewSim(c *kit.Check, r *kit.Rng, pr Profile) *Sim {
 		return sig, err == nil
 	}
 	bv.addSet(cloneSet(s.B.Vals))
+	// the monitors watch from the first block on: connection and channel handshakes below
+	// already update the client many times
 	s.realSubj = s.adopt(p.EndpointA.ClientID, bv, "main")
 	s.realSubj.Real = true
-
 	for i := 0; i < pr.Virt; i++ {
 		s.newVirtual(i)
+	}
+	if err := kit.Try(func() {
+		p.CreateConnections()
+		p.CreateChannels()
+	}); err != nil {
+		// the workload goes on with whatever exists; consumers of the real path will be refused
+		s.pathBroken = true
+		s.tr("real path setup failed: %s", short(err.Error()))
+		c.Inc("real_path_setup_failed")
 	}
 	// a bystander client that no operation ever names
 	s.newVirtual(0).Role = "bystander"
